@@ -118,7 +118,8 @@ def schema_risks(s):
             elif t == "array":
                 go(n["items"], inside)
             elif t == "map":
-                if ends_with_record(n["values"]):
+                vals = deref(n["values"])
+                if any(ends_with_record(b) for b in (vals if isinstance(vals, list) else [vals])):
                     tags.add("map-value-record-ends-with-record")
                 go(n["values"], inside)
     go(s, frozenset())
